@@ -45,6 +45,11 @@ OBLIGATIONS = {"exhaustive-grid": 500, "shape:1xk": 20, "shape:kx1": 20,
                "sink": 50, "offgrid": 50, "invalid-code": 50, "tight-buffer": 5,
                "flowpath:empty-area": 5, "api-sequence": 10, "snake": 6}
 CODES = [1, 2, 4, 8, 16, 32, 64, 128, 0, 3]
+# what "an invalid code" stands for in the enumerations (3 is replaced by one of these,
+# rotating): combinations of direction bits, negative values, and valid codes with
+# high-order bits set (which a narrower integer type would mistake for the valid code)
+INVALID = [3, 255, -1, 2 ** 32 + 16, 5, 2 ** 32 + 1, -2 ** 32 + 4, 2 ** 40 + 64, 6,
+           2 ** 31 + 2, 129, 2 ** 33 + 128, 2 ** 62 + 8, 12]
 
 
 def mods():
@@ -361,6 +366,7 @@ def run(ctx):
                 ctx.info["exhaustive_complete"] = False
                 break
             codes = np.array(combo, dtype=np.int64).reshape((nr, nc))
+            codes[codes == 3] = INVALID[idx % len(INVALID)]
             case = {"kind": "grid", "codes": codes.tolist()}
             ctx.tag("exhaustive-grid")
             run_grid(ctx, codes, case)
@@ -429,7 +435,7 @@ def run(ctx):
         else:
             nr, nc = int(rng.integers(3, 9)), int(rng.integers(3, 9))
         if it % 4 == 3:
-            codes = rng.choice(CODES + [5, 255, -1], size=(nr, nc))
+            codes = rng.choice(CODES + INVALID, size=(nr, nc))
         else:
             codes = gen_forest(rng, nr, nc, it % 3)
         case = {"kind": "grid", "codes": codes.tolist(), "random": True,
